@@ -5,4 +5,5 @@ import "verif/harness/internal/fw"
 var All = map[string]*fw.Prop{
 	"C01": C01,
 	"C02": C02,
+	"C17": C17,
 }
